@@ -45,8 +45,12 @@ func (c *InternalCron) ScheduleEvent(ctx *core.Context, se *ScheduledEvent) erro
 		return err
 	}
 
+	// The event belongs to the location that schedules it now, not
+	// to whatever location the context happens to point to when the
+	// job fires.
+	loc := ctx.Location()
+
 	fn := func(t time.Time) error {
-		loc := ctx.Location()
 		if loc == nil {
 			return errors.New("no location in ctx")
 		}
@@ -57,7 +61,18 @@ func (c *InternalCron) ScheduleEvent(ctx *core.Context, se *ScheduledEvent) erro
 		core.Log(core.DEBUG|CRON, ctx, "InternalCron.ScheduleEvent", "findrules", *fr)
 		return nil
 	}
-	return c.Cron.Add(ctx, se.Id, sched, fn)
+	return c.Cron.Add(ctx, eventJobId(ctx, se.Id), sched, fn)
+}
+
+// eventJobId makes the id for the job of a scheduled event.
+//
+// One Cron serves all locations, and rules in different locations can
+// have the same id, so the location is part of the job's id.
+func eventJobId(ctx *core.Context, id string) string {
+	if loc := ctx.Location(); loc != nil {
+		return loc.Name + "\n" + id
+	}
+	return id
 }
 
 func (c *InternalCron) Schedule(ctx *core.Context, sw *ScheduledWork) error {
@@ -102,7 +117,7 @@ func (c *InternalCron) Schedule(ctx *core.Context, sw *ScheduledWork) error {
 }
 
 func (c *InternalCron) Rem(ctx *core.Context, id string) (bool, error) {
-	return c.Cron.Rem(ctx, id)
+	return c.Cron.Rem(ctx, eventJobId(ctx, id))
 }
 
 func (c *InternalCron) Persistent() bool {
